@@ -195,15 +195,17 @@ def maxBacktickSize (code : List Char) : Nat :=
   (lines code).foldl (fun mx l => Nat.max (leadingBackticks l) mx) 2
 
 /-- the configuration of the test case relative to the format's default, as `create` can have it
-here: nothing, or `output_stream: stderr` -/
+here: nothing, or `output_stream: stderr`; and as `update --convert markdown` has it for a test read
+from a Cram document (the Cram defaults, relative to the Markdown defaults) -/
 inductive ConfigDiff where
-  | empty | stderr
+  | empty | stderr | cramDefaults
   deriving DecidableEq, Repr
 
 /-- `format!(" {}", config_diff.to_yaml_one_liner())` or `""` -/
 def configText : ConfigDiff → List Char
   | .empty => []
   | .stderr => [' ', '{', 'o', 'u', 't', 'p', 'u', 't', '_', 's', 't', 'r', 'e', 'a', 'm', ':', ' ', 's', 't', 'd', 'e', 'r', 'r', '}']
+  | .cramDefaults => [' ', '{', 'o', 'u', 't', 'p', 'u', 't', '_', 's', 't', 'r', 'e', 'a', 'm', ':', ' ', 'c', 'o', 'm', 'b', 'i', 'n', 'e', 'd', ',', ' ', 'k', 'e', 'e', 'p', '_', 'c', 'r', 'l', 'f', ':', ' ', 't', 'r', 'u', 'e', '}']
 
 def language : List Char := ['s', 'c', 'r', 'u', 't']
 
